@@ -5,8 +5,9 @@
     [wal]; [cl_step cmp pred w hd o] runs operation [o] on the list named by [hd] (the bulk operations take the other
     list as their source); [wabs w] is the pair of forward traversals; [spec_step] is the ideal pair of sequences,
     whose flag [fl] says "the allocator refused inside this operation" (an allocating operation then reports
-    CC_ERR_ALLOC and changes nothing). [winv w]: both lists are well formed (below), both use the same allocator
-    family, and the ledger holds exactly their headers and nodes. *)
+    CC_ERR_ALLOC and changes nothing). [winv w]: both lists are well formed (below) and the ledger holds exactly
+    their headers and nodes. The two lists may use different allocator families; only the move operations
+    splice / splice_at need them to agree ([mem_ok w o]), because they hand the source's nodes to the destination. *)
 From CC Require Import Base.Prelude Base.Alloc Base.AllocProofs Generated.Status.
 From CC Require Import List_.ListModel List_.ListHeap List_.ListProofs1 List_.ListProofs4 List_.ListProofs5.
 From CC Require Import SList.SListModel SList.SListHeap SList.SListProofs1 SList.SListProofs3 SList.SListProofs4.
@@ -14,7 +15,7 @@ Local Open Scope N_scope.
 
 (** The invariant is preserved by every operation on either handle, with every argument, and no operation faults. *)
 Theorem C04_list_wf_preserved : forall cmp pred w hd o,
-  winv w -> exists out w', cl_step cmp pred w hd o = Ok (out, w') /\ winv w'.
+  winv w -> mem_ok w o -> exists out w', cl_step cmp pred w hd o = Ok (out, w') /\ winv w'.
 Proof. exact list_wf_preserved. Qed.
 Print Assumptions C04_list_wf_preserved.
 
@@ -39,8 +40,9 @@ Print Assumptions C04_list_wf_explicit.
     contains, contains_value, size, to_array, foreach, reverse, filter_mut, add_all, add_all_at, splice, splice_at),
     every index in N, any comparator and predicate: exact status, out-values and both sequences of the ideal object;
     a refusal is reported only when the allocator did refuse a request of this operation. *)
-Theorem C04_list_step_refines : forall cmp pred w hd o, winv w ->
-  exists out w' fl, cl_step cmp pred w hd o = Ok (out, w') /\ winv w' /\
+Theorem C04_list_step_refines : forall cmp pred w hd o, winv w -> mem_ok w o ->
+  exists out w' fl, cl_step cmp pred w hd o = Ok (out, w') /\
+    (winv w' /\ l_mem (wa w') = l_mem (wa w) /\ l_mem (wb w') = l_mem (wb w)) /\
     (out, wabs w') = spec_step cmp pred (wabs w) hd o fl /\ aframe (wal w) (wal w') /\
     (fl = true -> plan (wal w) <> [] \/ limit (wal w) < req_bytes (psel (wabs w) hd) o).
 Proof. exact list_step_refines. Qed.
@@ -48,7 +50,7 @@ Print Assumptions C04_list_step_refines.
 
 (** add_all / add_all_at leave the whole state of the source list untouched; splice / splice_at leave it empty (or
     untouched when the source was empty or the index rejected); the destination is the ideal insertion. *)
-Theorem C04_list_bulk : forall cmp pred w hd o, winv w ->
+Theorem C04_list_bulk : forall cmp pred w hd o, winv w -> mem_ok w o ->
   exists out w' fl, cl_step cmp pred w hd o = Ok (out, w') /\ winv w' /\
     (out, wabs w') = spec_step cmp pred (wabs w) hd o fl /\
     match o with
@@ -67,27 +69,29 @@ Theorem C04_list_mirror : forall w, winv w ->
 Proof. exact list_mirror. Qed.
 Print Assumptions C04_list_mirror.
 
-(** All histories on the two lists from the constructor, under any fault plan; with an exhausted plan a refusal
-    happens only for a request above the allocator's limit ([fls_ok]). *)
-Theorem C04_list_run_refines : forall cmp pred mem a0 sa a1 sb a2 ops,
-  lok a0 -> live a0 = [] -> cl_new mem a0 = (CC_OK, Some sa, a1) -> cl_new mem a1 = (CC_OK, Some sb, a2) ->
+(** All histories on the two lists from the constructor, under any fault plan and any pair of allocator families
+    (equal families are required only if the history contains a splice); with an exhausted plan a refusal happens
+    only for a request above the allocator's limit ([fls_ok]). *)
+Theorem C04_list_run_refines : forall cmp pred mema memb a0 sa a1 sb a2 ops,
+  lok a0 -> live a0 = [] -> cl_new mema a0 = (CC_OK, Some sa, a1) -> cl_new memb a1 = (CC_OK, Some sb, a2) ->
+  (has_splice ops = true -> mema = memb) ->
   exists outs w' fls, cl_run cmp pred {| wa := sa; wb := sb; wal := a2 |} ops = Ok (outs, w') /\ winv w' /\
     length fls = length ops /\ (outs, wabs w') = spec_run cmp pred ([], []) ops fls /\
     (plan a0 = [] -> fls_ok cmp pred (limit a0) ([], []) ops fls).
 Proof. exact list_new_run_refines. Qed.
 Print Assumptions C04_list_run_refines.
 
-(** Non-vacuity: a reachable state with three and one elements satisfies the invariant. *)
-Example C04_list_inv_nonvacuous : exists w, winv w /\ wabs w = ([3; 1; 2], [7]).
+(** Non-vacuity: a reachable state with three and one elements, the lists using different allocator families. *)
+Example C04_list_inv_nonvacuous : exists w, winv w /\ wabs w = ([3; 1; 2; 7], [7]).
 Proof.
   destruct (cl_new Conf (alloc_init [] W)) as [[st1 [sa|]] a1] eqn:E1; [|vm_compute in E1; discriminate].
-  destruct (cl_new Conf a1) as [[st2 [sb|]] a2] eqn:E2; [|vm_compute in E1; inversion E1; subst; vm_compute in E2; discriminate].
+  destruct (cl_new Libc a1) as [[st2 [sb|]] a2] eqn:E2; [|vm_compute in E1; inversion E1; subst; vm_compute in E2; discriminate].
   assert (st1 = CC_OK /\ st2 = CC_OK) as [-> ->].
   { vm_compute in E1. inversion E1; subst. vm_compute in E2. inversion E2; subst. auto. }
   assert (Hk : lok (alloc_init [] W)) by (split; [apply ledger_ok_init|cbn; lia]).
-  destruct (list_new_run_refines cmp_val pred_even Conf (alloc_init [] W) sa a1 sb a2
-              [(HA, OAddLast 1); (HA, OAddLast 2); (HB, OAddFirst 7); (HA, OAddFirst 3)]
-              Hk eq_refl E1 E2) as (outs & w' & fls & E & Hw & _).
+  destruct (list_new_run_refines cmp_val pred_even Conf Libc (alloc_init [] W) sa a1 sb a2
+              [(HA, OAddLast 1); (HA, OAddLast 2); (HB, OAddFirst 7); (HA, OAddFirst 3); (HA, OAddAll)]
+              Hk eq_refl E1 E2 ltac:(discriminate)) as (outs & w' & fls & E & Hw & _).
   exists w'. split; [exact Hw|].
   vm_compute in E1. inversion E1; subst. vm_compute in E2. inversion E2; subst. vm_compute in E. inversion E; subst. reflexivity.
 Qed.
